@@ -70,7 +70,7 @@ def parse_registry():
                     cur = {"name": v, "file": fn, "props": [], "tier": "quick", "timeout": 600,
                            "mem": 12, "functions": "", "bounds": "", "stubs": "none", "assumes": "none",
                            "cut": "", "flags": "", "kind": "core", "witness": "", "sub": "", "cfg": "",
-                           "replay": "playback", "fs": "1024"}
+                           "replay": "playback", "fs": "1024", "modpath": ""}
                     reg.append(cur)
                 elif cur is not None:
                     if k == "props":
@@ -79,7 +79,7 @@ def parse_registry():
                         cur[k] = True
                     elif k in ("timeout", "mem"):
                         cur[k] = int(v)
-                    elif k in cur and isinstance(cur[k], str) and cur[k] and k not in ("tier", "kind", "stubs", "assumes", "replay", "fs"):
+                    elif k in cur and isinstance(cur[k], str) and cur[k] and k not in ("tier", "kind", "stubs", "assumes", "replay", "fs", "modpath"):
                         cur[k] += " " + v
                     else:
                         cur[k] = v
@@ -152,11 +152,13 @@ class Scratch:
                 return os.path.join(vdir, CRATE_SUB)
             subprocess.run(["rsync", "-a", self.tree + "/", vdir + "/"], check=True)
             for one in sub.split("|||"):
-                f, old, new = [x.strip() for x in one.split(":::")]
+                parts = [x.strip() for x in one.split(":::")]
+                f, old, new = parts[0], parts[1], parts[2].replace("{HARNESS_DIR}", HARNESS_DIR)
+                want = int(parts[3]) if len(parts) > 3 else 1
                 p = os.path.join(vdir, CRATE_SUB, f)
                 s = open(p).read()
-                if s.count(old) != 1:
-                    raise RuntimeError("substitution %r matches %d times in %s" % (old, s.count(old), f))
+                if s.count(old) != want:
+                    raise RuntimeError("substitution %r matches %d times in %s (expected %d)" % (old, s.count(old), f, want))
                 open(p, "w").write(s.replace(old, new))
             return os.path.join(vdir, CRATE_SUB)
 
@@ -263,7 +265,12 @@ class Runner:
             self.free_lanes.append(l)
 
     def kani_cmd(self, h, lane, extra=()):
-        cmd = ["cargo", "kani"] + KANI_FEATURES + ["-Z", "stubbing", "--harness", h["name"],
+        # fully qualified name + --exact: kani's --harness is a substring filter otherwise
+        modpath = INJECT[h["file"]][len("src/"):-len(".rs")].replace("/", "::")
+        fq = "%s::verif_kani_%s::%s" % (modpath, h["file"][:-3], h["name"])
+        if h["modpath"]:
+            fq = "%s::%s" % (h["modpath"], h["name"])
+        cmd = ["cargo", "kani"] + KANI_FEATURES + ["-Z", "stubbing", "--harness", fq, "--exact",
                                                    "--target-dir", lane]
         fl = h["flags"].split()
         if "c-ffi" in fl:
@@ -330,7 +337,7 @@ class Runner:
             # only unwinding assertions failed: either the bound is too small (harness problem) or the
             # code loops beyond any bound. A harness declares `@unwind_is_property` when termination
             # within the bound IS the asserted property.
-            if h.get("unwind_is_property"):
+            if h.get("unwind_is_property") or os.environ.get("VERIF_UNWIND_PROP"):
                 real = res["failed"]
             else:
                 out["verdict"] = "inconclusive"; out["reason"] = "unwinding bound too small (unwinding assertion failed)"
